@@ -460,6 +460,12 @@ func (k Keeper) ParsePricing(ctx sdk.Context, pricing string) (p types.Pricing, 
 		return p, sdkerrors.Wrapf(types.ErrInvalidPricing, "invalid price: %s", err.Error())
 	}
 
+	// a decimal amount is not range-checked when it is parsed; beyond the range of sdk.Int it cannot be
+	// converted to an integer amount of the min unit
+	if token.Amount.GTE(sdk.NewDecFromInt(maxAmount)) {
+		return p, sdkerrors.Wrapf(types.ErrInvalidPricing, "invalid price: %s is too large", rawPricing.Price)
+	}
+
 	priceCoin, err := ft.ToMinCoin(token)
 	if err != nil {
 		return p, sdkerrors.Wrapf(types.ErrInvalidPricing, "invalid price: %s", err.Error())
